@@ -302,8 +302,10 @@ def r6_history_lookup(ctx, rid):
     """For a delayed model the iterates are those of the compiled vector field only if the history object the fixed-step solvers
     feed (R5) answers every delayed read - several delays, any order of reads within a step - from the two records around the query
     time: the clamp/interpolation rule of C19-R5 on DDEHistory.__call__, reused here."""
-    from .c19 import r5_query
+    from .c19 import r5_query, r1_records_are_copies, r4_growth_keeps_records
     r5_query(ctx, rid)
+    r1_records_are_copies(ctx, rid)
+    r4_growth_keeps_records(ctx, rid)
 
 
 RULES = [
